@@ -183,6 +183,9 @@ def extract(src, problems):
             raise ValueError('_compile_route does not return (matcher, generator)')
         return 1
     attempt('matcher_fresh_dict', fresh_dict)
+    # what str.strip() (no argument) removes -- RequestParamPredicate.__init__ strips the two halves of 'k=v' with it.
+    # A fact about the running Python, not about the source: the characters c with chr(c).isspace()
+    vals['py_space_chars'] = ''.join(chr(c) for c in range(0x110000) if chr(c).isspace())
     return vals, nums
 
 
